@@ -27,7 +27,7 @@ func TestC03Addresses(t *testing.T) {
 		watchdog.Case(t, "C03", g, func(c *evid.Case) {
 			m := mgrsim.New(t, "C03", c)
 			defer m.Close()
-			m.Run(t, weights, 4, maxSteps, 0, func(op string) {
+			m.Run(t, weights, 4, maxSteps, 12, func(op string) {
 				m.CheckAllIssued("after " + op)
 			})
 			classify(m, c)
